@@ -9,16 +9,16 @@ P = {
          "more files, deeper paths, longer names/messages, histories longer than two commits"),
  "C03": ("connectivity after one command", "every modifying command's RunE from four reachable prefixes (nothing committed / one commit / two commits + second branch / renamed branch), with hostile branch names ('../../HEAD', 'a/b', '..', free 1..2 byte names), ids of commits/trees/blobs/free 39-41 hex digits, reflog positions 0..9; fsck written in the harness with independent decoders",
          "command sequences longer than prefix + 1; argument strings outside the hostile grammar"),
- "C04": ("add / rm exactness", "add/rm RunE, cmd.add, Index.Update/DeleteEntry/GetEntry/GetEntriesByDirectory, file.GetFilePathsUnderDirectory, Ignore.IsIncluded; 1..2 tracked files (each untouched/edited/deleted, for rm also replaced by a directory holding an untracked file) + one untracked file with free names, one free path argument (file, directory, deleted path, unknown, path through a file)",
+ "C04": ("add / rm exactness", "add/rm RunE, cmd.add, Index.Update/DeleteEntry/GetEntry/GetEntriesByDirectory, file.GetFilePathsUnderDirectory, Ignore.IsIncluded; 1..2 tracked files (each untouched/edited/deleted, for rm also replaced by a directory holding an untracked file) + one untracked file; plus add/rm of a tracked path whose parent directory was replaced by an untracked file with free names, one free path argument (file, directory, deleted path, unknown, path through a file)",
          "more than two tracked files, two arguments, invocation from a sub-directory"),
  "C05": ("snapshot read-back", "writeTreeObject -> GetObject -> NewTree/walkTree -> Tree.String and reset --mixed + ls-files -s; 0..2 (3) entries with free names (space included) and 20 free id bytes each",
          "trees not written by Goit (C19), depth > 2"),
  "C06": ("staging-area file and lookups", "Index.write/read/Update/DeleteEntry/GetEntry/IsRegisteredAsDirectory/GetEntriesByDirectory as one step from an ARBITRARY canonical index (0..3 (4) entries, free paths of depth<=2, components<=2 bytes, free ids) with a free query path; inductive: covers histories of any length because every mutator is shown to preserve the invariant",
          "more entries / longer components than the bound; paths >= 65536 bytes"),
- "C07": ("staged-changes report", "Index.DiffWithTree, object.GetNode, getEntriesFromTree, isCommitNecessary over a pool of 0..2 (3) free paths with free membership in HEAD / index and free 'changed' bits, the HEAD tree produced by the real writer and reader; plus status/commit at the CLI",
+ "C07": ("staged-changes report", "Index.DiffWithTree, object.GetNode, getEntriesFromTree, isCommitNecessary over a pool of 0..2 (3) free paths with free membership in HEAD / index and free 'changed' bits, the HEAD tree produced by the real writer and reader; plus status/commit at the CLI (one or two tracked files staged, removed or re-added with free bytes, a new file; a tracked file replaced by a directory or the reverse and staged again)",
          "pools larger than the bound"),
- "C08": ("reset modes", "reset RunE, resetHead/resetIndex/resetWorkingTree, Reflog.load/GetRecord/Show, Head.Reset, Index.Reset, ReflectToWorkingTree after two commits + second branch with a perturbed work tree; argument = valid position, free digit, free 1..2 (3) byte junk, or a position with free text around it; all three modes",
-         "histories with more than two commits; positions >= 10 only as refusals"),
+ "C08": ("reset modes", "reset RunE, resetHead/resetIndex/resetWorkingTree, Reflog.load/GetRecord/Show, Head.Reset, Index.Reset, ReflectToWorkingTree after two commits (the second edits or renames a file, or replaces a file by a directory / a directory by a file) + second branch with a perturbed work tree; journals of 11 (25) entries with one- and two-digit positions; argument = valid position, free digit, free 1..2 (3) byte junk, or a position with free text around it; all three modes",
+         "content-changing histories with more than two commits"),
  "C09": ("restore exactness", "restore RunE, restoreIndex, restoreWorkingDirectory, stagedPathsUnder, GetNode, Node.GetPaths over (HEAD, index, work tree) triples built by real commands with free names and a free path argument",
          "more than two tracked files; two arguments"),
  "C10": ("branch / HEAD state machine", "Refs.getBranchPos/AddBranch/RenameBranch/DeleteBranch/UpdateBranchHash/NewRefs as one step from an ARBITRARY sorted set of 0..3 branches with free names over a-zA-Z0-9_.- (inductive), and branch/switch/update-ref/rev-parse/branch --list at the CLI from 1..3 branches (free names over a-zA-Z0-9_.: and space, including 'head'/'Head'; the operand name up to 2 bytes, so ': ' is covered)",
@@ -27,7 +27,7 @@ P = {
          "messages longer than the bound; symbolic non-ASCII"),
  "C12": ("commit metadata round trip", "Sign.String/readSign with the offset a solver variable over all 105 quarter-hour offsets, 10 free decimal digits of unix time, free name and e-mail of the accepted grammar; and `commit` with a symbolic clock at the CLI followed by cat-file/log",
          "names longer than 2 (3) bytes, unix times outside 10 digits, \\r, symbolic non-ASCII"),
- "C13": ("working-tree report", "status RunE, GetFilePathsUnderDirectoryWithIgnore, Ignore.IsIncluded, Index.GetEntry, NewObject with 1..2 tracked files (untouched / rewritten with free bytes / deleted) and an optional untracked file with free names",
+ "C13": ("working-tree report", "status RunE, GetFilePathsUnderDirectoryWithIgnore, Ignore.IsIncluded, Index.GetEntry, NewObject with 1..2 tracked files (untouched / rewritten with free bytes / deleted) and an optional untracked file with free names; a tracked file replaced on disk by a directory and the reverse",
          "timestamps (never read by the code: no ModTime call in the SSA), more files"),
  "C14": ("log", "walkHistory + log RunE over chains of 1..3 (6) commits written by the real commit command, an optional side branch, optional dirty staging area, -n a free 64-bit integer in [-2,100] or absent",
          "chains longer than the bound (the property asks up to 50)"),
